@@ -140,7 +140,11 @@ theorem C17_roundtrip_desc_reply (cvt : Int → Nat) (d : DescReply) :
 /-! ### string sets and string maps -/
 
 /-- **C17 round trip, `StringHashSet`**: every set (canonical = strictly ascending
-    element list of any length, any strings) -/
+    element list, any strings).  There is no bound on the number of members: `l` is an
+    arbitrary list and the proof is by induction on it (`decSetEntries_sorted`,
+    `normObj_sorted`); the visitor of the model walks the whole map whatever its
+    size (`C17_set_visitor_both_impls`), on the text and on the `Value` entry point
+    alike.  1025 or 10000 members are instances. -/
 theorem C17_roundtrip_set (cvt : Int → Nat) (l : List String) (hs : strictSorted l = true) :
     decode cvt .set (encode .set (.set l)) = some (.set l) ∧
     fromValue cvt .set (toValue .set (.set l)) = some (.set l) :=
